@@ -162,6 +162,11 @@ def parseOp (line : String) : Op :=
     match nonce.toNat? with | some n => .confirm chain signer (.set n) (canonAddr ext) sig | none => .bad
   | ["confirm", chain, signer, "batch", tok, nonce, ext, sig] =>
     match nonce.toNat? with | some n => .confirm chain signer (.batch tok n) (canonAddr ext) sig | none => .bad
+  | ["delegatek", chain, val, orch, eth, signedBy, signedVal, signedNonce, accSeq] =>
+    -- the same registration, its signature made by the repository's keys generator for (signedBy, signedVal, signedNonce)
+    match signedNonce.toNat?, accSeq.toNat? with
+    | some n, some s => .delegate chain val orch (canonAddr eth) (canonAddr signedBy) signedVal n s
+    | _, _ => .bad
   | ["delegate", chain, val, orch, eth, signedBy, signedVal, signedNonce, accSeq] =>
     match signedNonce.toNat?, accSeq.toNat? with
     | some n, some s => .delegate chain val orch (canonAddr eth) (canonAddr signedBy) signedVal n s
